@@ -76,7 +76,24 @@ def post_to(sm, post):
     elif k == "amo_heule":
         sm.heuleencoding([mk_lit(sm, l) for l in post[1]], post[2])
     elif k == "pb":
-        sm.pseudoboolencoding(mk_ineq(sm, post), bool(post[4]))
+        # one inequality OBJECT may be looked at and posted more than once (once per construction, after an isclause() query, again
+        # after having been refused): a redundant posting restricts nothing further, a refused one stays refused
+        ineq = mk_ineq(sm, post)
+        how = post[5] if len(post) > 5 else None
+        if how == "query-first":
+            ineq.isclause()
+            ineq.isclause()
+        try:
+            sm.pseudoboolencoding(ineq, bool(post[4]))
+        except Exception:
+            if how not in ("twice", "retry"):
+                raise
+            sm.pseudoboolencoding(ineq, bool(post[4]))  # (raises again = refused; accepted now = it has to be exact)
+        else:
+            if how == "twice":
+                sm.pseudoboolencoding(ineq, bool(post[4]))
+            elif how == "both":
+                sm.pseudoboolencoding(ineq, not bool(post[4]))
     elif k == "pb-shared":
         # the way rect.py works: one expression object is reused in several inequalities; the second inequality is
         # BUILT before the first one is derived and POSTED after it
@@ -152,6 +169,8 @@ def run_script(c):
             accepted.append(p)
             if p[0] == "pb-shared":
                 cls.append("shared-subexpression")
+            if p[0] == "pb" and len(p) > 5 and p[5]:
+                cls.append("same-inequality-object-used-again")
             if p[0] == "pb":
                 ineq = mk_ineq(S.SATManager(), p)
                 cls.append("pb-clause-shortcut" if ineq.isclause() else ("pb-robdd-decomp" if p[4] else "pb-robdd"))
@@ -261,7 +280,7 @@ def script_s(draw):
             bound = draw(_i(total_neg - 1, total_pos + 1))
         else:
             bound = draw(_i(total_neg + 1, total_pos - 1))
-        return ["pb", terms, op, bound, draw(st.booleans())]
+        return ["pb", terms, op, bound, draw(st.booleans()), draw(st.sampled_from([None, None, None, "twice", "query-first", "both", "retry"]))]
 
     def shared():
         n = nvars
@@ -312,6 +331,6 @@ def script_s(draw):
 
 def subchecks():
     return [
-        Sub("scripts", run_script, strategy=script_s(), n_quick=12000, n_thorough=300000,
-            required=("pb-robdd", "pb-robdd-decomp", "pb-clause-shortcut", "heule-depth2", "refused", "history", "sat", "unsat", "shared-subexpression")),
+        Sub("scripts", run_script, strategy=script_s(), n_quick=12000, n_thorough=300000, fuzz_thorough=6000,
+            required=("pb-robdd", "pb-robdd-decomp", "pb-clause-shortcut", "heule-depth2", "refused", "history", "sat", "unsat", "shared-subexpression", "same-inequality-object-used-again")),
     ]
